@@ -162,6 +162,7 @@ type Call struct {
 	Active  bool
 	Held    bool
 	Faulted bool
+	Panicked bool
 
 	// arguments (deep copies)
 	Names   []string
@@ -247,6 +248,7 @@ type Handle struct {
 	CreatedBy string
 	Closes    int
 	Opens     int
+	opening   int
 	UsedAfterClose int
 	active    int
 	Conn      interface{}
@@ -619,6 +621,7 @@ func (fs *FS) fault(c *Call) bool {
 	}
 	if f.Panic != "" {
 		c.Faulted = true
+		c.Panicked = true
 		simrt.Fault("backend.panic")
 		panic(f.Panic)
 	}
@@ -874,20 +877,22 @@ func (h *Handle) Open(mode p9.OpenFlags) (p9.QID, uint32, error) {
 	c.Flags = uint32(mode)
 	fs.begin(c)
 	defer fs.end(c)
-	h.Opens++
-	if h.Opens > 1 {
-		fs.viol("C07", "open-twice", "Open", "Open invoked %d times on handle %d (%s)", h.Opens, h.ID, c.Path)
+	// an Open that failed (or panicked) may be retried; count successes and
+	// opens that are in progress
+	if h.Opens+h.opening > 0 {
+		fs.viol("C07", "open-twice", "Open", "Open invoked again on handle %d (%s): %d succeeded, %d in progress", h.ID, c.Path, h.Opens, h.opening)
 	}
+	h.opening++
+	defer func() { h.opening-- }()
 	if fs.fault(c) {
-		h.Opens-- // a failed Open may be retried
 		return p9.QID{}, 0, c.Err
 	}
 	n := h.node()
 	if n == nil {
 		c.Err = linux.ENOENT
-		h.Opens--
 		return p9.QID{}, 0, c.Err
 	}
+	h.Opens++
 	h.pinned = n
 	if mode&0o1000 != 0 && n.Kind == Reg { // O_TRUNC
 		n.Data = nil
